@@ -12,7 +12,7 @@ pub uninterp spec fn en_items<I: Iterator>(e: &Enumerate<I>) -> Seq<I::Item>;
 pub uninterp spec fn en_pos<I: Iterator>(e: &Enumerate<I>) -> int;
 pub assume_specification<I: Iterator> [Enumerate::<I>::next] (e: &mut Enumerate<I>) -> (r: Option<(usize, I::Item)>)
     ensures en_items(final(e)) == en_items(old(e)),
-        0 <= en_pos(old(e)) <= en_items(old(e)).len(),
+        0 <= en_pos(old(e)) <= en_items(old(e)).len(), en_items(old(e)).len() <= usize::MAX,
         en_pos(old(e)) < en_items(old(e)).len() ==> r == Some((en_pos(old(e)) as usize, en_items(old(e))[en_pos(old(e))])) && en_pos(final(e)) == en_pos(old(e)) + 1,
         en_pos(old(e)) >= en_items(old(e)).len() ==> r is None && en_pos(final(e)) == en_pos(old(e));
 
@@ -79,6 +79,139 @@ pub fn masks(pattern: &[u8]) -> (r: ([u64; 256], u64))
     }
 
     (masks, accept)
+}
+
+pub struct ShiftAnd {
+    m: usize,
+    masks: [u64; 256],
+    accept: u64,
+}
+
+pub struct Matches<'a> {
+    shiftand: &'a ShiftAnd,
+    active: u64,
+    text: Enumerate<std::slice::Iter<'a, u8>>,
+}
+
+pub open spec fn occurs(p: Seq<u8>, t: Seq<&u8>, i: int) -> bool {
+    0 <= i && i + p.len() <= t.len() && forall|k: int| 0 <= k < p.len() ==> p[k] == *t[i + k]
+}
+/// p[0..=j] equals the j+1 text symbols ending at index e (inclusive)
+pub open spec fn pm(p: Seq<u8>, t: Seq<&u8>, e: int, j: int) -> bool {
+    0 <= j <= e < t.len() && j < p.len() && forall|k: int| 0 <= k <= j ==> p[k] == *t[e - j + k]
+}
+proof fn lemma_step(a: u64, mk: u64, j: u64)
+    requires j < 64
+    ensures ((((a << 1) | 1) & mk) >> j) & 1 == 1 <==> ((j == 0 || (a >> ((j - 1) as u64)) & 1 == 1) && (mk >> j) & 1 == 1)
+{
+    assert(((((a << 1) | 1) & mk) >> j) & 1 == 1 <==> ((j == 0 || (a >> ((j - 1) as u64)) & 1 == 1) && (mk >> j) & 1 == 1)) by (bit_vector) requires j < 64;
+}
+proof fn lemma_acc(active: u64, s: u64)
+    requires s < 64
+    ensures (active & (1u64 << s) > 0) <==> ((active >> s) & 1 == 1)
+{
+    assert((active & (1u64 << s) > 0) <==> ((active >> s) & 1 == 1)) by (bit_vector) requires s < 64;
+}
+
+impl ShiftAnd {
+    pub closed spec fn pat(&self) -> Seq<u8> {
+        Seq::new(self.m as nat, |i: int| choose|c: u8| bit_set(self.masks@[c as int], i))
+    }
+    pub closed spec fn wf(&self) -> bool {
+        &&& 1 <= self.m <= 64
+        &&& masks_ok(self.masks@, self.pat(), self.m as int)
+        &&& self.accept == 1u64 << ((self.m - 1) as u64)
+    }
+}
+
+impl<'a> Matches<'a> {
+    pub closed spec fn t(&self) -> Seq<&'a u8> { en_items(&self.text) }
+    pub closed spec fn pos(&self) -> int { en_pos(&self.text) }
+    pub closed spec fn p(&self) -> Seq<u8> { self.shiftand.pat() }
+    pub closed spec fn wf(&self) -> bool {
+        &&& self.shiftand.wf()
+        &&& 0 <= self.pos() <= self.t().len()
+        &&& forall|j: int| 0 <= j < 64 ==> (#[trigger] bit_set(self.active, j) <==> pm(self.p(), self.t(), self.pos() - 1, j))
+    }
+
+    fn next(&mut self) -> (r: Option<usize>)
+        requires old(self).wf()
+        ensures final(self).wf(), final(self).p() == old(self).p(), final(self).t() == old(self).t(),
+            old(self).pos() <= final(self).pos(),
+            match r {
+                // i is an occurrence ending exactly at the new position; none ended in between
+                Some(i) => occurs(old(self).p(), old(self).t(), i as int) && i + old(self).p().len() == final(self).pos()
+                    && old(self).pos() < final(self).pos()
+                    && forall|x: int| old(self).pos() < x + old(self).p().len() < final(self).pos() ==> !occurs(old(self).p(), old(self).t(), x),
+                None => final(self).pos() == old(self).t().len()
+                    && forall|x: int| old(self).pos() < x + old(self).p().len() ==> !occurs(old(self).p(), old(self).t(), x),
+            }
+    {
+        let ghost p = self.p(); let ghost t = self.t(); let ghost m = self.shiftand.m as int; let ghost pos0 = self.pos();
+        loop
+            invariant self.wf(), self.p() == p, self.t() == t, m == self.shiftand.m, p.len() == m, self.shiftand == old(self).shiftand,
+                pos0 <= self.pos(), t == old(self).t(), p == old(self).p(), pos0 == old(self).pos(),
+                forall|x: int| pos0 < x + m <= self.pos() ==> !occurs(p, t, x),
+            ensures self.pos() == t.len(),
+            decreases t.len() - self.pos()
+        {
+            let ghost a0 = self.active; let ghost e0 = self.pos();
+            assert(0 <= e0 <= t.len());
+            match self.text.next() { Some((i, c)) => {
+            self.active = ((self.active << 1) | 1) & self.shiftand.masks[*c as usize];
+            proof {
+                let mk = self.shiftand.masks@[*c as int];
+                assert(en_items(&self.text) == t);
+                assert(e0 < t.len());
+                assert(en_pos(&self.text) == e0 + 1);
+                assert(i == e0);
+                assert(c == t[e0]);
+                assert forall|j: int| 0 <= j < 64 implies (#[trigger] bit_set(self.active, j) <==> pm(p, t, e0, j)) by {
+                    lemma_step(a0, mk, j as u64);
+                    assert(bit_set(mk, j) <==> (j < m && p[j] == *c));
+                    if j > 0 {
+                        assert(bit_set(a0, j - 1) <==> pm(p, t, e0 - 1, j - 1));
+                        if pm(p, t, e0 - 1, j - 1) && j < m && p[j] == *c {
+                            assert forall|k: int| 0 <= k <= j implies p[k] == *t[e0 - j + k] by { if k < j { assert(p[k] == *t[(e0 - 1) - (j - 1) + k]); } }
+                        }
+                        if pm(p, t, e0, j) {
+                            assert forall|k: int| 0 <= k <= j - 1 implies p[k] == *t[(e0 - 1) - (j - 1) + k] by { assert(p[k] == *t[e0 - j + k]); }
+                            assert(p[j] == *t[e0 - j + j]);
+                        }
+                    } else {
+                        if pm(p, t, e0, 0) { assert(p[0] == *t[e0 - 0 + 0]); }
+                    }
+                }
+                lemma_acc(self.active, (m - 1) as u64);
+                // an occurrence ending at e0 (inclusive) is exactly pm(.., e0, m-1)
+                assert forall|x: int| x + m == e0 + 1 implies (occurs(p, t, x) <==> pm(p, t, e0, m - 1)) by {
+                    if occurs(p, t, x) { assert forall|k: int| 0 <= k <= m - 1 implies p[k] == *t[e0 - (m - 1) + k] by { assert(p[k] == *t[x + k]); } }
+                    if pm(p, t, e0, m - 1) { assert forall|k: int| 0 <= k < m implies p[k] == *t[x + k] by { assert(p[k] == *t[e0 - (m - 1) + k]); } }
+                }
+            }
+            proof {
+                assert(self.pos() == e0 + 1);
+                assert(self.wf());
+                assert(bit_set(self.active, m - 1) <==> pm(p, t, e0, m - 1));
+                if !bit_set(self.active, m - 1) {
+                    assert forall|x: int| pos0 < x + m <= self.pos() implies !occurs(p, t, x) by { }
+                }
+            }
+            if self.active & self.shiftand.accept > 0 {
+                proof {
+                    assert(pm(p, t, e0, m - 1));
+                    assert(occurs(p, t, e0 + 1 - m));
+                }
+                return Some(i + 1 - self.shiftand.m);
+            }
+            } None => break }
+        }
+        proof {
+            assert forall|x: int| pos0 < x + m implies !occurs(p, t, x) by { }
+        }
+
+        None
+    }
 }
 }
 fn main() {}
